@@ -25,28 +25,10 @@ Definition enc_section (c : css_section) : wire :=
   [cs_start c; cs_end c; cs_bstart c; cs_bend c] ++ enc_opt (enc_list enc_prop) (cs_props c).
 Definition enc_item (i : select_item) : wire := [si_start i; si_end i] ++ enc_ranges (si_ranges i).
 
-(* get_css_section / select_item_css on a precomputed event list (same definitions
-   as in CssActions, with [scan code] shared) *)
-Definition section_ev (code : str) (evs : list event) (pos : Z) (properties : bool) : option css_section :=
-  match section_go pos [] evs with
-  | None => None
-  | Some (a, b, ba, bb) =>
-      Some (mkCS a b ba bb (if properties then Some (parse_properties code ba bb) else None))
-  end.
+(* get_css_section / select_item_css on the precomputed event list *)
+Definition section_ev := section_events.
 Definition select_ev (code : str) (evs : list event) (pos : Z) (is_prev : bool) : option select_item :=
-  if is_prev then
-    let st := prev_go pos (mkPV None (-1) (-1) (-1) (-1) (-1)) evs in
-    match pv_type st with
-    | Some false => Some (mkSI (pv_start st) (pv_end st) [(pv_start st, pv_end st)])
-    | Some true =>
-        if negb (pv_vstart st =? -1) then
-          let e := decl_end (pv_vdelim st) (pv_vend st) in
-          Some (mkSI (pv_start st) e
-                     (rev (value_ranges code (push [] (pv_start st, e)) (pv_vstart st) (pv_vend st))))
-        else Some (mkSI (pv_start st) (pv_end st) (rev (push [] (pv_start st, pv_end st))))
-    | None => None
-    end
-  else next_go code pos None evs.
+  if is_prev then select_previous_events code evs pos else select_next_events code evs pos.
 
 Definition enc_at (code : str) (evs : list event) (pos : Z) : wire :=
   enc_opt enc_match (match_events evs pos)
